@@ -124,6 +124,11 @@ func StyleAttr(r *rand.Rand, known []StyleDecl, clean bool) string {
 		s += Pick(r, []string{"; color", "; :", "; }", "; {", "; @import 'x'", "; color: red; }", "/*", "\\", "; \"", "; '", "; url(", ";;;"})
 	case 2:
 		s = " " + s + " "
+	case 3:
+		// terminators and white space of every kind after the last declaration
+		s += Pick(r, []string{";", ";;", "; ;", ";;;"}) + Pick(r, []string{"\t", "\n", "\r\n", "\f", "\u00a0", "\v", " \t ", "\u3000", "\u2028", " ", "\x00", "\ufeff"})
+	case 4:
+		s = Pick(r, []string{";", ";;", "\t;", "\u00a0;", "\n;;\n"}) + s
 	}
 	return s
 }
